@@ -19,11 +19,13 @@ import (
 	"verifharness/piecestore"
 	"verifharness/sched"
 	"verifharness/trackerb"
+	"verifharness/upload"
 	"verifharness/wire"
 )
 
 var bindings = map[string]func(in []byte) any{
 	"piecestore": piecestore.Replay,
+	"upload":     upload.Replay,
 	"c11x":       c11x.Handle,
 	"sched":      sched.Replay,
 	"tracker":    trackerb.Handle,
